@@ -23,9 +23,12 @@ GEN = ["hash"]
 RULE = (
     "contents: styles text / CRLF text / binary / mixed (CR, LF, NUL, high bytes) / lone CR and CR CR LF / "
     "binary head followed by CRLF text / non-text ratio at the 30% threshold, lengths 0,1,2, around the "
-    "512-byte sniffing window, around the read size and multiples of it; read-size sequences drawn from "
+    "512-byte sniffing window, around the read size and multiples of it; HISTORIES on one stream object "
+    "(made by get_hash_stream, HashStreamFile or Dos2UnixHashStreamFile directly): read sizes drawn from "
     "-1, 0, 1, 2, 7, 511, 512, 513, 1024, 4096 (plain streams) and >=512 with an occasional <512 (legacy "
-    "stream); short reads of the underlying file imposed by a cut oracle; algorithm names md5, sha1, "
+    "stream) interleaved with 0-3 queries of hash_value/total_read at random points, every intermediate "
+    "answer judged against hashlib over the bytes handed out so far; short reads of the underlying file "
+    "imposed by a cut oracle; algorithm names md5, sha1, "
     "sha224..sha512, sha3, blake2, sha512_256, blake3, md5-dos2unix in exact, upper, capitalised and "
     "mixed-case spellings; LF/CRLF twins; real files through hash_file incl. files of 2^20 +- 1 bytes. "
     "A case is non-trivial when the content is non-empty and it was read in >= 2 chunks or through the "
@@ -203,21 +206,37 @@ def content_of(case) -> bytes:
     return b"".join(bytes.fromhex(h) * k for h, k in sp)
 
 
+def ops_of(case):
+    """the history of a reads case: ints = read sizes, "q" = query hash_value and total_read"""
+    return case["ops"] if "ops" in case else list(case["ns"])
+
+
+def is_legacy(case):
+    """does this case go through the text-normalising class (decided by the harness' own call)"""
+    ctor = case.get("ctor", "get_hash_stream")
+    return ctor == "Dos2UnixHashStreamFile" or (ctor == "get_hash_stream" and case["name"] == D2U)
+
+
 def run_reads(case):
-    """explicit read sequence on get_hash_stream(...); returns the observation dict"""
-    from dvc_data.hashfile.hash import get_hash_stream
+    """a history on ONE stream object: reads interleaved with hash_value / total_read queries"""
+    from dvc_data.hashfile import hash as H
 
     content = content_of(case)
     f = CutFile(content, case["cuts"])
-    obs = {"kind": "reads", "cls": None, "alg": None}
+    obs = {"kind": "reads", "cls": None, "alg": None, "answers": []}
     with observed() as rec:
         try:
-            stream = get_hash_stream(f, case["name"])
+            stream = getattr(H, case.get("ctor", "get_hash_stream"))(f, case["name"])
             obs["cls"] = type(stream).__name__
             obs["alg"] = stream.hash_name
             chunks = []
-            for n in case["ns"]:
-                chunks.append(stream.read(n))
+            obs["chunks_so_far"] = chunks
+            for op in ops_of(case):
+                if op == "q":
+                    obs["answers"].append({"k": len(chunks), "digest": stream.hash_value, "total": stream.total_read,
+                                           "fed": bytes(rec["hashers"][0].fed)})
+                else:
+                    chunks.append(stream.read(op))
             obs.update(status="ok", chunks=chunks, total=stream.total_read, digest=stream.hash_value)
         except AssertionError:
             obs["status"] = "assert"
@@ -304,8 +323,9 @@ def judge(case, obs):
     if obs["status"] == "exc":
         return [(f"C14:unexpected-exception:{obs['exc']}", f"{kind} with {name!r} raised {obs['exc']}")]
     if obs["status"] == "assert":
-        legacy = name == D2U
-        small = (kind == "reads" and any(n < 512 for n in case["ns"])) or (kind == "drive" and case["chunk"] < 512)
+        legacy = is_legacy(case)
+        small = (kind == "reads" and any(n != "q" and n < 512 for n in ops_of(case))) or \
+            (kind == "drive" and case["chunk"] < 512)
         if not (legacy and small):
             out.append(("C14:spurious-assertion", f"{kind} with {name!r} raised AssertionError although "
                         "every read size is >= 512 or the stream is not the legacy one"))
@@ -314,7 +334,20 @@ def judge(case, obs):
         return out  # judged by the caller against algorithms_available
     chunks = obs["chunks"]
     joined = b"".join(chunks)
-    legacy = name == D2U
+    legacy = is_legacy(case)
+    # every intermediate answer of the history is about exactly the bytes handed out before it
+    for a in obs.get("answers", []):
+        sofar = b"".join(chunks[:a["k"]])
+        if legacy:
+            ok = a["digest"] == hashlib.md5(a["fed"]).hexdigest() and \
+                (any(b"\r\n" in c for c in chunks[:a["k"]]) or a["fed"] == sofar)  # noqa: S324
+        else:
+            ok = a["digest"] == ref_digest(name, sofar) and a["total"] == len(sofar)
+        if not ok:
+            out.append(("C14:history:intermediate-answer",
+                        f"hash_value / total_read asked after {a['k']} reads ({len(sofar)} bytes handed out) answered "
+                        f"{a['digest']} / {a['total']}: not the reference digest / count of those bytes"))
+            break
     # pass-through (both classes): every chunk is literally what the file object returned
     if kind in ("reads", "drive"):
         handed = obs["handed"]
@@ -427,7 +460,14 @@ def gen_reads(ctx, k):
     for _ in range(k):
         alg = pick_alg(rng, 0.35)
         name = alg if alg == D2U and rng.random() < 0.85 else spell(rng, alg)
-        legacy = name == D2U
+        ctor = "get_hash_stream"
+        r = rng.random()
+        if r < 0.25:
+            ctor = "HashStreamFile"          # the class itself, any spelling of any algorithm
+        elif r < 0.33 and name.lower() in ("md5", D2U):
+            ctor = "Dos2UnixHashStreamFile"  # the legacy class itself (MD5 family only: the oracle's reference)
+        case = {"kind": "reads", "name": name, "ctor": ctor}
+        legacy = is_legacy(case)
         style = rng.choice(STYLES)
         if legacy:
             n = rng.choice([0, 1, 100, 511, 512, 513, 700, 1023, 1024, 1025, 1300, 1536, 1600])
@@ -440,9 +480,14 @@ def gen_reads(ctx, k):
             small = n <= 100
             sizes = [-1, 0, 1, 2, 7, 511, 512, 513, 1024, 4096] if small else [-1, 0, 7, 100, 511, 512, 513, 1024, 4096]
             ns = [rng.choice(sizes) for _ in range(rng.randint(1, 8))]
+        # queries of hash_value / total_read at random points of the history (0..3 of them; a
+        # third of the histories has none, so the digest-only behaviour stays covered)
+        ops = list(ns)
+        for _ in range(rng.choice([0, 1, 1, 2, 2, 3])):
+            ops.insert(rng.randrange(len(ops) + 1), "q")
         cuts = [rng.choice([1, 3, 200, 512, 600, 10**6]) for _ in range(rng.randint(0, 3))] if rng.random() < 0.4 else []
-        out.append({"kind": "reads", "name": name, "style": style, "content": gen_content(rng, style, n).hex(),
-                    "cuts": cuts, "ns": ns})
+        case.update(style=style, content=gen_content(rng, style, n).hex(), cuts=cuts, ops=ops)
+        out.append(case)
     return out
 
 
@@ -559,8 +604,11 @@ def enc_obs(obs):
     """expected val of enc_sel ++ enc_reads/enc_drive for an observation"""
     sel = vL([vB(obs["alg"] or ""), vbool(obs["cls"] == "Dos2UnixHashStreamFile")])
     if obs["status"] == "ok":
-        body = vL([vN(0), vL([vB(obs["fed"]), vN(obs["total"]), vB(obs["rest"])]),
-                   vL([vB(c) for c in obs["chunks"]])])
+        parts = [vN(0), vL([vB(obs["fed"]), vN(obs["total"]), vB(obs["rest"])]),
+                 vL([vB(c) for c in obs["chunks"]])]
+        if obs["kind"] == "reads":
+            parts.append(vL([vL([vN(a["k"]), vB(a["fed"]), vN(a["total"])]) for a in obs["answers"]]))
+        body = vL(parts)
     elif obs["status"] == "assert":
         body = vL([vN(10)])
     else:
@@ -579,7 +627,7 @@ def nontrivial(case, obs):
     content = content_of(case)
     if not content or obs["status"] != "ok":
         return bool(content) and obs["status"] == "assert"
-    return len(obs.get("chunks", [])) >= 2 or case["name"] == D2U
+    return len(obs.get("chunks", [])) >= 2 or is_legacy(case) or bool(obs.get("answers"))
 
 
 # ------------------------------------------------------------------------------------------
@@ -600,8 +648,11 @@ def run(ctx):
         obs = run_reads(case)
         book(ctx, case, obs)
         sel, body = enc_obs(obs)
-        inp = "(%s, %s, %s, %s)" % (cbytes(case["name"]), cbytes(content_of(case)),
-                                      clist([str(c) for c in case["cuts"]]), clist([cZ(n) for n in case["ns"]]))
+        ctor = {"get_hash_stream": "ViaGetHashStream", "HashStreamFile": "DirectPlain",
+                "Dos2UnixHashStreamFile": "DirectDos2Unix"}[case.get("ctor", "get_hash_stream")]
+        inp = "(%s, %s, %s, %s, %s)" % (ctor, cbytes(case["name"]), cbytes(content_of(case)),
+                                          clist([str(c) for c in case["cuts"]]),
+                                          clist(["SQuery" if o == "q" else f"SRead {cZ(o)}" for o in ops_of(case)]))
         items_r.append((case, inp, vL([sel, body])))
     for case in drives:
         obs = run_drive(case)
@@ -639,9 +690,8 @@ def run(ctx):
                    "judged against hashlib/blake3 on the whole content, literal pass-through and the counter")
 
     ctx.correspond(
-        "reads", IMPORTS, "list N * list N * list N * list Z",
-        "fun i => let '(name, content, cuts, ns) := i in "
-        "VL [enc_sel name; enc_reads (reads (picks_dos2unix name) (init_stream content cuts) ns [])]",
+        "reads", IMPORTS, "ctor * list N * list N * list N * list sop",
+        "fun i => let '(c, name, content, cuts, ops) := i in enc_history c name content cuts ops",
         items_r, shard=ctx.n(12, 25))
     ctx.correspond(
         "driver", IMPORTS, "list N * Z * list N * list N",
@@ -704,6 +754,9 @@ def book(ctx, case, obs, avail=None):
     content = content_of(case)
     ctx.case(strip(case), nontrivial(case, obs))
     ctx.count("kind:" + case["kind"])
+    if case["kind"] == "reads":
+        ctx.count("ctor:" + case.get("ctor", "get_hash_stream"))
+        ctx.count("queries-in-history:%d" % sum(1 for o in ops_of(case) if o == "q"))
     ctx.count("alg:" + case["name"].lower())
     ctx.count("spelling:" + ("exact" if case["name"] == case["name"].lower() else "case-variant"))
     ctx.count("class:" + str(obs.get("cls")))
@@ -787,9 +840,10 @@ def shrink(ctx, case, sig):
     if best.get("cuts") and fails({**best, "cuts": []}):
         best = {**best, "cuts": []}
     if case["kind"] == "reads":
+        best = {**{k: v for k, v in best.items() if k != "ns"}, "ops": ops_of(best)}
         i = 0
-        while i < len(best["ns"]) and len(best["ns"]) > 1:
-            c = {**best, "ns": best["ns"][:i] + best["ns"][i + 1:]}
+        while i < len(best["ops"]) and len(best["ops"]) > 1:
+            c = {**best, "ops": best["ops"][:i] + best["ops"][i + 1:]}
             if fails(c):
                 best = c
             else:
@@ -854,5 +908,6 @@ def replay_case(ctx, case):
         return {"violates": False, "note": "unknown case kind"}
     problems = judge(case, obs)
     show = {k: (v.hex() if isinstance(v, bytes) else [x.hex() for x in v] if isinstance(v, list) and v and
-                isinstance(v[0], bytes) else v) for k, v in obs.items() if k not in ("all_chunks", "file_after")}
+                isinstance(v[0], bytes) else v) for k, v in obs.items() if k not in ("all_chunks", "file_after", "chunks_so_far", "answers")}
+    show["answers"] = [{**a, "fed": a["fed"].hex()} for a in obs.get("answers", [])]
     return {"observation": show, "problems": problems, "violates": bool(problems)}
